@@ -16,6 +16,7 @@ ASSUMPTIONS = ["segment lengths are taken from seg.length() (C06 owns their corr
                "paths have positive total length; the leading segment is not zero-length"]
 # coverage-guided second engine (atheris), thorough tier only: (shards, libFuzzer runs per shard)
 FUZZ = {'thorough': (16, 20000)}
+RULE += ' Also: Half of the paths under test are derived from an already-queried path (scaled, rotated, translated, reversed) or edited in place after queries; a small no-scipy configuration and loop segments are included; the lengths taken over from the library are bounded by chord polyline and control polygon.'   # added after the seeded-change rounds (DESIGN.md section 10)
 CONFIGS = ['scipy', 'noscipy']
 BUDGET = {'quick': {'scipy': 6000, 'noscipy': 160}, 'thorough': {'scipy': 150000, 'noscipy': 6000}}
 CASE_TIMEOUT = 60
